@@ -60,6 +60,12 @@ fn families() -> Vec<Family> {
         f("header-fee-pool-is-0", vec![pi(6), LoadImm(10), VRef, pi(0), Eql]),
         f("header-pools-root-byte0-even", vec![pi(2), pi(0), pi(9), LoadImm(10), VRef, BRef, Rem, pi(0), Eql]),
         f("header-coins-root-byte0-even", vec![pi(2), pi(0), pi(4), LoadImm(10), VRef, BRef, Rem, pi(0), Eql]),
+        // a covenant that writes a free heap slot (and approves) and one that reads that slot (fails on its own: the slot is unset
+        // in every fresh environment): no input's evaluation may see another input's heap
+        f("writes-heap-slot-77", vec![pi(1), StoreImm(77), pi(1)]),
+        f("reads-heap-slot-77", vec![LoadImm(77)]),
+        // fails inside a loop body (stack underflow at the second instruction of the body)
+        f("fails-inside-loop", vec![pi(1), Loop(3, 2), Add, Add]),
     ]
 }
 
@@ -365,7 +371,7 @@ pub fn run(run: &Run) {
         for b in 0..nf {
             for c in 0..nf {
                 // quick tier: the families added last (more undecodable shapes, header readers) take part in singles and pairs only
-                if !thorough && [a, b, c].iter().any(|x| *x >= 15) {
+                if !thorough && [a, b, c].iter().any(|x| *x >= 15) && !([a, b, c].contains(&21) && [a, b, c].contains(&22)) {
                     continue;
                 }
                 let mut used = vec![0usize; nf];
